@@ -439,11 +439,166 @@ def labDecode (alen : Nat) (reach : Bool) (bs : Bytes) : Option NStruct :=
                 else if a.length ≠ ceil8 pbits then none
                 else some (.lab ls (a ++ List.replicate (alen - a.length) 0) pbits)
 
+/-- `flowspec.rs::read_nlri_len`: (length, octets of the length field) -/
+def readFlowNlriLen : Bytes → Option (Nat × Nat)
+  | [] => none
+  | first :: rest =>
+      if first < 240 then some (first, 1)
+      else match rest with
+        | [] => none
+        | second :: _ => some ((first % 16) * 256 + second, 2)
+
+/-- `Op::decode`: the two length bits select 1 / 2 / 4 / 8 value octets and are stripped from `bits` -/
+def readOp : Bytes → Option (FOp × Bytes)
+  | [] => none
+  | raw :: rest =>
+      let w := 1 <<< (raw / 16 % 4)
+      if rest.length < w then none else some (⟨raw &&& 207, beNat (rest.take w)⟩, rest.drop w)
+
+/-- `decode_ops`: operators up to and including the one with the end-of-list bit -/
+def readOps : Nat → Bytes → Option (List FOp × Bytes)
+  | 0, _ => none
+  | fuel + 1, bs =>
+      match readOp bs with
+      | none => none
+      | some (o, r) =>
+          if o.bits &&& 128 ≠ 0 then some ([o], r)
+          else match readOps fuel r with
+            | some (os, r') => some (o :: os, r')
+            | none => none
+
+/-- `FlowspecV4Component::decode` / `FlowspecV6Component::decode` -/
+def readComp (v6 : Bool) : Bytes → Option (FComp × Bytes)
+  | [] => none
+  | ty :: rest =>
+      if ty = 1 ∨ ty = 2 then
+        match rest with
+        | [] => none
+        | mask :: r2 =>
+            if mask > (if v6 then 128 else 32) then none
+            else if v6 then
+              match r2 with
+              | [] => none
+              | off :: r3 =>
+                  if r3.length < ceil8 mask then none
+                  else some (.pfx ty mask off (r3.take (ceil8 mask) ++ List.replicate (16 - ceil8 mask) 0), r3.drop (ceil8 mask))
+            else
+              if r2.length < ceil8 mask then none
+              else some (.pfx ty mask 0 (r2.take (ceil8 mask) ++ List.replicate (4 - ceil8 mask) 0), r2.drop (ceil8 mask))
+      else if 3 ≤ ty ∧ ty ≤ (if v6 then 13 else 12) then
+        match readOps rest.length rest with
+        | some (ops, r) => some (.num ty ops, r)
+        | none => none
+      else none
+
+/-- the component loop `while pos < nlri_len` -/
+def readComps : Nat → Bool → Bytes → Option (List FComp)
+  | _, _, [] => some []
+  | 0, _, _ :: _ => none
+  | fuel + 1, v6, b :: bs =>
+      match readComp v6 (b :: bs) with
+      | none => none
+      | some (c, r) =>
+          match readComps fuel v6 r with
+          | some cs => some (c :: cs)
+          | none => none
+
+/-- `FlowspecV4Nlri::decode` .. `FlowspecVpnV6Nlri::decode` on the bytes of one NLRI -/
+def flowDecode (v6 vpn : Bool) (bs : Bytes) : Option NStruct :=
+  match readFlowNlriLen bs with
+  | none => none
+  | some (n, h) =>
+      if n + h > bs.length then none
+      else if vpn && n < 8 then none
+      else
+        let body := (bs.drop h).take n
+        if vpn then
+          match readRd (body.take 8) with
+          | none => none
+          | some rd =>
+              (match readComps body.length v6 (body.drop 8) with
+               | some cs => some (.flow v6 (some rd) cs)
+               | none => none)
+        else
+          match readComps body.length v6 body with
+          | some cs => some (.flow v6 none cs)
+          | none => none
+
+/-- `read_exact` of `n` octets -/
+def takeN (n : Nat) (bs : Bytes) : Option (Bytes × Bytes) :=
+  if bs.length < n then none else some (bs.take n, bs.drop n)
+
+/-- the address-length octet (bits) and the address of the EVPN routes; `zero` = an absent address is allowed -/
+def readEvpnIp (zero : Bool) : Bytes → Option (Bytes × Bytes)
+  | [] => none
+  | l :: r =>
+      if l = 0 then (if zero then some ([], r) else none)
+      else if l = 32 then takeN 4 r
+      else if l = 128 then takeN 16 r
+      else none
+
+/-- `EvpnNlri::decode` on the bytes of one NLRI: type, length, and the fields of the route types 1 - 5 in sequence -/
+def evpnDecode : Bytes → Option NStruct
+  | ty :: len :: r0 =>
+      if ty = 1 then
+        if len ≠ 25 then none else do
+          let (rdb, r1) ← takeN 8 r0
+          let rd ← readRd rdb
+          let (esi, r2) ← takeN 10 r1
+          let (etag, r3) ← takeN 4 r2
+          let (l, _) ← takeN 3 r3
+          pure (.evpn (.ead rd esi (beNat etag) (beNat l)))
+      else if ty = 2 then
+        if len < 33 then none else do
+          let (rdb, r1) ← takeN 8 r0
+          let rd ← readRd rdb
+          let (esi, r2) ← takeN 10 r1
+          let (etag, r3) ← takeN 4 r2
+          let (ml, r4) ← takeN 1 r3
+          if ml ≠ [48] then none else
+          let (mac, r5) ← takeN 6 r4
+          let (ip, r6) ← readEvpnIp true r5
+          let (l1, r7) ← takeN 3 r6
+          if len = 33 + ip.length + 3 then do
+            let (l2, _) ← takeN 3 r7
+            pure (.evpn (.macip rd esi (beNat etag) mac ip (beNat l1) (some (beNat l2))))
+          else pure (.evpn (.macip rd esi (beNat etag) mac ip (beNat l1) none))
+      else if ty = 3 then
+        if len < 17 then none else do
+          let (rdb, r1) ← takeN 8 r0
+          let rd ← readRd rdb
+          let (etag, r2) ← takeN 4 r1
+          let (ip, _) ← readEvpnIp false r2
+          pure (.evpn (.imet rd (beNat etag) ip))
+      else if ty = 4 then
+        if len < 23 then none else do
+          let (rdb, r1) ← takeN 8 r0
+          let rd ← readRd rdb
+          let (esi, r2) ← takeN 10 r1
+          let (ip, _) ← readEvpnIp false r2
+          pure (.evpn (.es rd esi ip))
+      else if ty = 5 then
+        if len ≠ 34 ∧ len ≠ 58 then none else do
+          let n := if len = 34 then 4 else 16
+          let (rdb, r1) ← takeN 8 r0
+          let rd ← readRd rdb
+          let (esi, r2) ← takeN 10 r1
+          let (etag, r3) ← takeN 4 r2
+          let (pl, r4) ← takeN 1 r3
+          let (ip, r5) ← takeN n r4
+          let (gw, r6) ← takeN n r5
+          let (l, _) ← takeN 3 r6
+          pure (.evpn (.pfx rd esi (beNat etag) (beNat pl) ip gw (beNat l)))
+      else none
+  | _ => none
+
 /-- the decoder of the structured NLRI's family, on its own bytes -/
 def NStruct.decodeLike (s : NStruct) (reach : Bool) (bs : Bytes) : Option NStruct :=
   match s with
   | .vpn _ _ addr _ => vpnDecode addr.length bs
   | .lab _ addr _ => labDecode addr.length reach bs
+  | .flow v6 rd _ => flowDecode v6 rd.isSome bs
+  | .evpn _ => evpnDecode bs
 
 /-- `nlri_equiv` of the harness: Rust `==`, except that a withdrawn labeled prefix is compared on the prefix only -/
 def NStruct.equiv (reach : Bool) (a b : NStruct) : Bool :=
@@ -453,15 +608,6 @@ def NStruct.equiv (reach : Bool) (a b : NStruct) : Bool :=
 
 /-- `String::from_utf8(b).unwrap_or_default()` as bytes -/
 def utf8OrEmpty (b : Bytes) : Bytes := if utf8Valid b then b else []
-
-/-- `flowspec.rs::read_nlri_len`: (length, octets of the length field) -/
-def readFlowNlriLen : Bytes → Option (Nat × Nat)
-  | [] => none
-  | first :: rest =>
-      if first < 240 then some (first, 1)
-      else match rest with
-        | [] => none
-        | second :: _ => some ((first % 16) * 256 + second, 2)
 
 /-- `Capability::decode`; `none` = `Err(())`.  (`Family(u32)` keeps the reserved byte in the real code;
     the reader drops it, which cannot be observed through `afi()`/`safi()`.) -/
